@@ -57,6 +57,12 @@ def r5(repo, run):
             problems.append('IndexError of the strict index check is not handled')
         elif not any(isinstance(c.func, ast.Attribute) and c.func.attr == 'append' and unparse(c.func.value) == acc for hh in h for c in calls_in(hh)):
             problems.append('invalid keys are not collected into %s' % acc)
+        else:
+            for hh in h:
+                top = [st for st in hh.body if isinstance(st, ast.Expr) and isinstance(st.value, ast.Call) and isinstance(st.value.func, ast.Attribute) and st.value.func.attr == 'append' and unparse(st.value.func.value) == acc]
+                skips = [x for x in ast.walk(ast.Module(body=hh.body, type_ignores=[])) if isinstance(x, (ast.Continue, ast.Break, ast.Return))]
+                if not top or skips:
+                    problems.append('an out-of-range key is not always reported (the handler of the strict index check skips some keys): such keys are then treated as new entries of the list')
     if not any('MergeError' in unparse(x.exc) for x in rz.body if isinstance(x, ast.Raise) and x.exc is not None):
         problems.append('invalid keys do not raise MergeError')
     sup = [c for c in calls_in(li.node) if is_method_call(c, member='on_merge_impl', ayns=True)]
